@@ -566,7 +566,7 @@ func init() {
 	trans := []string{"Sigmoid", "Tanh", "Softmax"}
 	allLosses := []string{"MSE", "BCE", "CE"}
 	allChecks = append(allChecks, &Check{
-		ID: "C11", Level: "model_checking",
+		ID: "C11", Level: "model_checking", ThoroughTimeoutMs: 15000,
 		Harnesses: []Harness{
 			{Name: "C11_train", Pkg: "zzh", Func: "H_C11_train", Reach: []string{"done"},
 				What: "FC -> activation -> loss: inductive training step from arbitrary weights (forward, loss, BackPropagate, Update, ResetGradContext), new weights vs w - lr*dL/dw from closed-form references; post-state invariant; values abstracted and step repeated on the real post-update objects",
@@ -574,9 +574,10 @@ func init() {
 					return mergeItems(combos(pwl, allLosses, map[string]int64{"maxb": 2, "maxf": 2, "maxo": 2, "steps": 2, "sharedinit": 0}),
 						combos(trans, allLosses, map[string]int64{"maxb": 1, "maxf": 2, "maxo": 2, "steps": 2, "sharedinit": 0}))
 				}, func() []Item {
-					return mergeItems(combos(pwl, allLosses, map[string]int64{"maxb": 3, "maxf": 3, "maxo": 3, "steps": 3, "sharedinit": 0}),
-						combos(trans, allLosses, map[string]int64{"maxb": 1, "maxf": 3, "maxo": 3, "steps": 3, "sharedinit": 0}),
-						combos([]string{"Sigmoid"}, []string{"MSE"}, map[string]int64{"maxb": 2, "maxf": 2, "maxo": 1, "steps": 2, "sharedinit": 0}))
+					return mergeItems(combos(pwl, allLosses, map[string]int64{"maxb": 2, "maxf": 2, "maxo": 2, "steps": 3, "sharedinit": 0}),
+						combos([]string{"none"}, []string{"MSE", "CE"}, map[string]int64{"maxb": 3, "maxf": 3, "maxo": 2, "steps": 2, "sharedinit": 0}),
+						combos([]string{"Sigmoid", "Tanh"}, allLosses, map[string]int64{"maxb": 1, "maxf": 3, "maxo": 3, "steps": 3, "sharedinit": 0}),
+						combos([]string{"Softmax"}, allLosses, map[string]int64{"maxb": 1, "maxf": 3, "maxo": 2, "steps": 3, "sharedinit": 0}))
 				})},
 			{Name: "C11_noreset", Pkg: "zzh", Func: "H_C11_noreset", Reach: []string{"done"},
 				What: "second step without ResetGradContext: Update returns an error and replaces nothing",
